@@ -298,6 +298,23 @@ def run (ctx):
         res_.append((any(any(call_name(c_) == 'close' for c_ in q.node_calls(n_)) for n_ in p_), any(n_ in qn_ for n_ in p_)))
     if res_ and all(cl_ and not qd_ for cl_, qd_ in res_): okc = True
   ctx.ob('R-EFFECT', sfast, "a fatal error in send_fast closes the worker and queues nothing", okc, "close(); return under errno != EAGAIN" if okc else "fatal branch changed", sfast, 'D5')
+  # ... and the dual: when the direct write would block (EAGAIN) nothing was written, so every path from the handler hands the data over to the
+  # buffered send - a path that returns without queueing loses the message (by evaluation, flags of an inlined helper followed)
+  is_ne2 = lambda e: isinstance(e, ast.Compare) and len(e.ops) == 1 and isinstance(e.ops[0], ast.NotEq) and norm(e.left).endswith('.errno') and 'EAGAIN' in norm(e.comparators[0])
+  is_eq2 = lambda e: isinstance(e, ast.Compare) and len(e.ops) == 1 and isinstance(e.ops[0], ast.Eq) and norm(e.left).endswith('.errno') and 'EAGAIN' in norm(e.comparators[0])
+  qn2 = g.nodes_with_call(lambda c: call_name(c) == 'send' and norm(c.func.value) in ('IOWorker', 'super(RecocoIOWorker, self)', 'super()'))
+  hs2 = [h_ for h_ in g.nodes if h_.kind == 'handler' and h_.ast.type is not None and 'error' in norm(h_.ast.type)]
+  ctx.floor('send_fast: handler of the direct write / queueing call', min(len(hs2), len(qn2)), 1)
+  res2 = []
+  for p_, e_ in q.paths_under(repo, iom, g, q.Env(dict(base), [(is_ne2, False), (is_eq2, True)]), g.entry, [g.exit], riw, limit=300, exc=True):
+    if not any(h_ in p_ for h_ in hs2): continue
+    res2.append((any(n_ in qn2 for n_ in p_), any(any(call_name(c_) == 'close' for c_ in q.node_calls(n_)) for n_ in p_), p_))
+  if not res2:
+    ctx.undecided('R-EFFECT', sfast, "a would-block in send_fast queues the data", "no path through the handler could be followed", sfast, 'D5')
+  else:
+    lost = [r_ for r_ in res2 if not r_[0] or r_[1]]
+    ctx.ob('R-EFFECT', sfast, "when the direct write would block the data is queued, the worker stays open", not lost, "%d handler paths, all reach the buffered send" % len(res2) if not lost else
+           "with errno == EAGAIN a path from the handler %s: nothing of the message was written and nothing is queued - it is lost" % ("closes the worker" if lost[0][1] else "leaves send_fast without reaching the buffered send"), sfast, 'D5')
   for f in (iclose, rclose):
     g = q.cfg_of(f)
     setc = [q.enclosing_stmt_node(g, s_) for t, v, s_, k in q.stores_in(f.node) if norm(t) == 'self.closed']
